@@ -63,7 +63,7 @@ impl Method {
     fn call_args(&self) -> String {
         let mut a: Vec<String> = self.params.iter().enumerate().map(|(i, p)| p.vt.expr(i)).collect();
         if self.uses_u {
-            a.push("777i64".into());
+            a.push("@U@".into());
         }
         a.join(", ")
     }
@@ -83,6 +83,8 @@ pub fn gen_case(t: &mut Tape) -> Case {
     let any_async = t.chance(1, 3);
     let use_async_trait = any_async && (dynamic || t.chance(1, 3));
     let generic_trait = t.chance(1, 4);
+    // a trait-level lifetime parameter (static selectors: `dyn Tr<'t> + 'static` is a different story)
+    let lifetime_trait = !generic_trait && !dynamic && t.chance(1, 5);
     let supertrait = t.chance(1, 4);
     let no_send = any_async && !use_async_trait && t.chance(1, 5);
     let n = t.range(1, 5);
@@ -108,7 +110,7 @@ pub fn gen_case(t: &mut Tape) -> Case {
                 }
             }
             let has_gen = params.iter().any(|p| p.vt == VT::Gen);
-            Method { name: names[i].clone(), tag: format!("M{i}"), is_async: any_async && t.chance(2, 3), params, has_gen, uses_u: generic_trait && t.flip(), typed_receiver: t.chance(1, 8), ret_unit: t.chance(1, 5) }
+            Method { name: names[i].clone(), tag: format!("M{i}"), is_async: any_async && t.chance(2, 3), params, has_gen, uses_u: (generic_trait || lifetime_trait) && t.flip(), typed_receiver: t.chance(1, 8), ret_unit: t.chance(1, 5) }
         };
         methods.push(m);
     }
@@ -130,8 +132,10 @@ pub fn gen_case(t: &mut Tape) -> Case {
     }
     let perm = t.permutation(opts.len());
     let attr: String = perm.into_iter().map(|i| opts[i].clone()).collect::<Vec<_>>().join(", ");
-    let tg = if generic_trait { "<U: ::core::fmt::Debug + Send + Sync + 'static>" } else { "" };
-    let targ = if generic_trait { "<i64>" } else { "" };
+    let tg = if generic_trait { "<U: ::core::fmt::Debug + Send + Sync + 'static>" } else if lifetime_trait { "<'t>" } else { "" };
+    let targ = if generic_trait { "<i64>" } else if lifetime_trait { "<'static>" } else { "" };
+    // with a lifetime-generic trait the extra trailing parameter is `u: &'t str`
+    let (u_decl, u_impl) = if lifetime_trait { ("u: &'t str", "u: &'static str") } else { ("u: U", "u: i64") };
     let mut sups: Vec<&str> = vec![];
     if supertrait {
         sups.push("Sup");
@@ -153,7 +157,7 @@ pub fn gen_case(t: &mut Tape) -> Case {
     }
     src.push_str(&format!("/*GEN*/ #[::entrait::entrait({attr})]\n{at}pub trait Tr{tg}{sup_src} {{\n"));
     for m in &methods {
-        src.push_str(&format!("    {};\n", m.sig(false)));
+        src.push_str(&format!("    {};\n", m.sig(false).replace("u: U", u_decl)));
     }
     src.push_str("}\n");
     // recording providers: Rec (Sync) and NsRec (!Sync)
@@ -163,7 +167,7 @@ pub fn gen_case(t: &mut Tape) -> Case {
     for (ty, field) in providers {
         src.push_str(&format!("pub struct {ty} {{ pub pad: u64, pub f: {field} }}\nimpl Sup for {ty} {{}}\n{at}impl Tr{targ} for {ty} {{\n"));
         for m in &methods {
-            src.push_str(&format!("    {} {}\n", m.sig(false).replace("u: U", "u: i64"), m.body()));
+            src.push_str(&format!("    {} {}\n", m.sig(false).replace("u: U", u_impl), m.body()));
         }
         src.push_str("}\n");
     }
@@ -201,7 +205,7 @@ pub fn gen_case(t: &mut Tape) -> Case {
         } else {
             src.push_str(&format!("pub struct NotSendApp {{ pub g: {nsend_field} }}\nimpl Sup for NotSendApp {{}}\n{at}impl Tr{targ} for NotSendApp {{\n"));
             for m in &methods {
-                src.push_str(&format!("    {} {}\n", m.sig(false).replace("u: U", "u: i64"), m.body()));
+                src.push_str(&format!("    {} {}\n", m.sig(false).replace("u: U", u_impl), m.body()));
             }
             src.push_str("}\n");
         }
@@ -211,7 +215,7 @@ pub fn gen_case(t: &mut Tape) -> Case {
     ));
     src.push_str("pub fn run() -> Vec<String> {\n    let mut fails: Vec<String> = vec![];\n    let app = ::entrait::Impl::new(mk_app());\n");
     for (i, m) in methods.iter().enumerate() {
-        let args = m.call_args();
+        let args = m.call_args().replace("@U@", if lifetime_trait { "\"lit\"" } else { "777i64" });
         let wrap = |e: String| if m.is_async { format!("rt::block_on({e})") } else { e };
         let vec_decls: String = m.params.iter().enumerate().filter(|(_, p)| p.vt == VT::MutVec).map(|(k, _)| format!("let mut vec_{k}: Vec<i32> = vec![{}]; ", k + 1)).collect();
         let vec_names: Vec<String> = m.params.iter().enumerate().filter(|(_, p)| p.vt == VT::MutVec).map(|(k, _)| format!("vec_{k}")).collect();
@@ -252,6 +256,9 @@ pub fn gen_case(t: &mut Tape) -> Case {
     }
     if generic {
         classes.push("generic");
+    }
+    if lifetime_trait {
+        classes.push("trait_lifetime_parameter");
     }
     if any_async {
         classes.push(if use_async_trait { "async_with_async_trait" } else { "async_static" });
